@@ -999,7 +999,11 @@ def main():
         "in random admissible spellings (case, leading zeros, '::' over any sub-run of zeros, dotted-quad tail), embedded "
         "IPv4 tails against their hex form, IPv4 vs IPv6 both ways incl. IPv4-mapped, a malformed stream (group counts, "
         "two '::', 5 hex digits, empty groups, bad prefixes 129 -1 +8 ' 8' 0x8, non-ASCII digits, corrupted valid texts), "
-        "'%zone' suffixes, and the canonical / exploded renderings of integers. Exhaustive "
+        "'%zone' suffixes, and the canonical / exploded renderings of integers; (F) the registered names as a MATCHER reaches "
+        "them: one real Enforcer per built-in name with the matcher <name>(r.key, p.pat), generated paths and address grids "
+        "asked through enforce() - on enforcers built first, on the same enforcers after other users of the library registered "
+        "their own functions under the built-in names / edited a function map of their own, and on enforcers built after "
+        "that. Exhaustive "
         "strata are duplicate-free by construction; a pair is non-trivial when its pattern contains a metacharacter "
         "(ip: when both arguments parse); generated cases are distinct by (style, pattern, key).")
     chk.assumptions = [
